@@ -145,8 +145,8 @@ func enc(dst []byte, n *node, over *node) []byte {
 			case c >= 0xa0 && c <= 0xbf:
 				dst = append(dst, 0xdb, 0xff, 0xff, 0xff, 0xff)
 				return append(dst, n.b[1:]...)
-			case c == 0xd9 || c == 0xc4:
-				dst = append(dst, c+2, 0xff, 0xff, 0xff, 0xff)
+			case c == 0xd9:
+				dst = append(dst, 0xdb, 0xff, 0xff, 0xff, 0xff)
 				return append(dst, n.b[2:]...)
 			}
 		}
@@ -1279,7 +1279,7 @@ func mutations(body []byte, oversize bool, f func(kind string, b []byte)) {
 	if root, used, ok := parse(body, 0); ok && used == len(body) {
 		var walk func(n *node)
 		walk = func(n *node) {
-			if n.k != 'L' || (n.b[0] >= 0xa0 && n.b[0] <= 0xbf) || n.b[0] == 0xd9 || n.b[0] == 0xc4 {
+			if n.k != 'L' || (n.b[0] >= 0xa0 && n.b[0] <= 0xbf) || n.b[0] == 0xd9 {
 				f("oversize-header", enc(nil, root, n))
 			}
 			for _, k := range n.kids {
